@@ -182,6 +182,14 @@ func runMutations(tier string, seed int64, langs []int, fullSubst bool) {
 				chk(strings.Join(ws, " "), "otherlist")
 				chk(sentence(idx, ol, " "), "wholeother") // a sentence of language ol checked under lang
 			}
+			// the same string, accepted under its own language a moment ago, asked about under every other language
+			s0 := sentence(idx, lang, " ")
+			for ol := 0; ol < 10; ol++ {
+				if ol != lang {
+					recCheck(s0, L, Event{"cls": "valid"})
+					recCheck(s0, int64(ol), Event{"cls": "samestring"})
+				}
+			}
 			// case / affix / punctuation damage
 			ws := strings.Split(sentence(idx, lang, " "), " ")
 			for t := 0; t < 6; t++ {
